@@ -32,8 +32,10 @@ for regime, jit in (("nojitter", None), ("light", "%d:20:200"), ("heavy", "%d:30
         tot["%s_%s" % (regime, k)] = v
 # TSan pass (gcc/clang TSan understands std::thread and std::atomic; the containers' own atomics are visible to it)
 rd = chk.rundir()
-env = {"TSAN_OPTIONS": "halt_on_error=0:report_signal_unsafe=0:log_path=%s/tsan.log:exitcode=0" % rd, "CMI_VERIF_JITTER": "%d:50:500" % rng.randint(1, 10 ** 6)}
-st, sd = hcheck.run_shards(chk, exe_tsan, ["--histories", str(10 if quick else 200)], 3 if quick else 16, timeout=600 if quick else 1800, env=env, max_workers=workers)
+env = {"TSAN_OPTIONS": "halt_on_error=0:report_signal_unsafe=0:log_path=%s/tsan.log:exitcode=0" % rd, "CMI_VERIF_JITTER": "%d:50:500" % rng.randint(1, 10 ** 6),
+       "CMI_VERIF_LOCK_SPINS": "200000000"}   # TSan makes every attempt ~20x slower: same order of wall time as the 2e9 above
+st, sd = hcheck.run_shards(chk, exe_tsan, ["--histories", str(10 if quick else 200)], 3 if quick else 16, timeout=600 if quick else 1800, env=env, max_workers=workers,
+                            deadlock_key="lock/never-released")
 tot["tsan_histories"] = sum(v for k, v in st.items() if k.endswith("_histories"))
 reports = tsan_classify.classify_dir(rd)
 tot["tsan_reports"] = len(reports)
